@@ -95,6 +95,169 @@ fn build_html(c: &Case) -> String {
     format!("{open}{body}{close}")
 }
 
+/// Model of how the *current* implementation decides the Preformat continuation flag
+/// (finding KF-C12-1: per character while text is scanned, sticky within one text node, reset
+/// when a word is flushed, not switched when white space triggers the wrap).  It only defines
+/// what the known finding excuses: an output that differs from the property's expectation is
+/// a known finding exactly when it equals this model, and a violation otherwise.
+struct FlagModel {
+    width: usize,
+    line_len: usize,
+    line_has_items: bool,
+    wslen: usize,
+    wordlen: usize,
+    word: Vec<usize>, // display widths of the characters of the pending word
+    pre_wrapped: bool,
+    flags: Vec<bool>,
+}
+impl FlagModel {
+    fn new(width: usize) -> FlagModel {
+        FlagModel { width, line_len: 0, line_has_items: false, wslen: 0, wordlen: 0, word: vec![], pre_wrapped: false, flags: vec![] }
+    }
+    fn reset_block(&mut self) {
+        let flags = std::mem::take(&mut self.flags);
+        *self = FlagModel::new(self.width);
+        self.flags = flags;
+    }
+    fn flush_line(&mut self) {
+        if self.line_has_items {
+            self.line_len = 0;
+            self.line_has_items = false;
+        }
+    }
+    fn push_ws(&mut self, n: usize) {
+        if n > 0 {
+            self.line_len += n;
+            self.line_has_items = true;
+        }
+    }
+    fn flush_word(&mut self) {
+        if !self.word.is_empty() {
+            self.pre_wrapped = false;
+            let space_in_line = self.width - self.line_len;
+            let space_needed = self.wslen + self.wordlen;
+            if space_needed <= space_in_line {
+                let n = self.wslen;
+                self.push_ws(n);
+                self.wslen = 0;
+                self.line_len += self.wordlen;
+                self.line_has_items = true;
+                self.word.clear();
+            } else {
+                if self.wslen >= space_in_line {
+                    self.wslen -= space_in_line;
+                } else if self.wslen > 0 {
+                    let n = self.wslen;
+                    self.push_ws(n);
+                    self.wslen = 0;
+                }
+                self.flush_line();
+                self.pre_wrapped = true;
+                while self.wslen > 0 {
+                    let to_copy = self.wslen.min(self.width);
+                    self.push_ws(to_copy);
+                    if to_copy == self.width {
+                        self.flush_line();
+                    }
+                    self.wslen -= to_copy;
+                }
+                // hard wrap: greedy, character by character
+                let mut lineleft = self.width - self.line_len;
+                for cw in std::mem::take(&mut self.word) {
+                    if cw > lineleft {
+                        self.flush_line();
+                        lineleft = self.width;
+                    }
+                    lineleft = lineleft.saturating_sub(cw);
+                    self.line_len = self.width - lineleft;
+                    self.line_has_items = true;
+                }
+            }
+        }
+        self.wordlen = 0;
+    }
+    fn add_text(&mut self, text: &str) {
+        let mut wrap = self.pre_wrapped;
+        for c in text.chars() {
+            if c.is_whitespace() && self.wordlen > 0 {
+                self.flush_word();
+            }
+            if c.is_whitespace() {
+                match c {
+                    '\n' => {
+                        self.line_len = 0;
+                        self.line_has_items = false;
+                        self.wslen = 0;
+                        self.pre_wrapped = false;
+                        wrap = false;
+                    }
+                    '\t' => {
+                        let mut pos = self.line_len + self.wslen;
+                        let mut at_least_one_space = false;
+                        while pos % 8 != 0 || !at_least_one_space {
+                            if pos >= self.width {
+                                self.flush_line();
+                                pos = 0;
+                            } else {
+                                self.line_len += 1;
+                                self.line_has_items = true;
+                                pos += 1;
+                                at_least_one_space = true;
+                            }
+                        }
+                    }
+                    _ => {
+                        let cwidth = cw(c);
+                        if self.line_len + self.wslen + cwidth > self.width {
+                            self.wslen = 0;
+                            self.flush_line();
+                            self.wslen += cwidth;
+                            self.pre_wrapped = true;
+                        } else {
+                            self.wslen += cwidth;
+                        }
+                    }
+                }
+            } else {
+                let cwidth = cw(c);
+                self.wordlen += cwidth;
+                if self.line_len + self.wslen + self.wordlen > self.width {
+                    self.pre_wrapped = true;
+                    wrap = true;
+                }
+                self.word.push(cwidth);
+                self.flags.push(wrap);
+            }
+        }
+    }
+}
+/// The flags the model predicts for every non-blank character of the <pre> block of `html`.
+fn model_flags(html: &str, avail: usize) -> Vec<bool> {
+    use crate::dom::{self, Data};
+    let d = dom::parse(html.as_bytes());
+    let pre = match (0..d.nodes.len()).find(|&i| d.is_html(i, "pre")) {
+        Some(p) => p,
+        None => return vec![],
+    };
+    fn walk(d: &crate::dom::Dom, i: usize, m: &mut FlagModel) {
+        match &d.nodes[i].data {
+            Data::Text(t) => m.add_text(t),
+            Data::Elem(l, _, _) if l == "br" => {
+                m.flush_word();
+                m.reset_block();
+            }
+            _ => {
+                for &k in &d.nodes[i].kids {
+                    walk(d, k, m);
+                }
+            }
+        }
+    }
+    let mut m = FlagModel::new(avail);
+    walk(&d, pre, &mut m);
+    m.flags
+}
+
 fn check(c: &Case, cx: &mut Cx) {
     let html = build_html(c);
     let (ctxname, _, _, pfx) = CTXS[c.ctx];
@@ -187,7 +350,7 @@ fn check(c: &Case, cx: &mut Cx) {
         let mut consumed = 0usize;
         let mut first_piece = true;
         let mut strict_ok = true;
-        let mut lenient_ok = true;
+        let mut observed_flags: Vec<bool> = vec![];
         let mut why = Value::Null;
         for l in lines {
             let mut line_ns = 0usize;
@@ -205,6 +368,7 @@ fn check(c: &Case, cx: &mut Cx) {
                     }
                 }
             }
+            observed_flags.extend(tags.iter().copied());
             if line_ns == 0 {
                 continue;
             }
@@ -219,17 +383,6 @@ fn check(c: &Case, cx: &mut Cx) {
             let want = !first_piece;
             if tags.iter().any(|&b| b != want) {
                 strict_ok = false;
-                // KF-C12-1: the continuation flag is decided per character while text is
-                // scanned (sticky within one text node, reset when a word is flushed, not
-                // switched when whitespace triggers the wrap), so pieces after the first can
-                // carry either flag.  What is still required: the first piece of a source
-                // line is never tagged as continuation - unless the line starts with
-                // whitespace that fills or overflows the first piece (then which piece is
-                // "first" is a matter of interpretation).
-                let leading_ws = src[li].starts_with(|ch: char| ch.is_whitespace());
-                if !want && !leading_ws {
-                    lenient_ok = false;
-                }
                 if why.is_null() {
                     why = json!({"line": line_text(l), "want_continuation": want, "tags": tags, "source_line": src[li]});
                 }
@@ -238,10 +391,14 @@ fn check(c: &Case, cx: &mut Cx) {
             first_piece = false;
         }
         if !strict_ok {
-            if lenient_ok {
+            // KF-C12-1 excuses exactly the flags the current implementation is known to
+            // produce (FlagModel); anything else is a different violation
+            let model = model_flags(&html, avail);
+            if observed_flags == model {
                 cx.known("KF-C12-1", || json!({"case": serde_json::to_value(c).unwrap(), "html": html, "detail": why}));
             } else {
-                fail(cx, "Preformat tags do not follow first/continuation pieces", why);
+                let first = observed_flags.iter().zip(model.iter()).position(|(a, b)| a != b);
+                fail(cx, "Preformat tags do not follow first/continuation pieces (and differ from the known finding's footprint)", json!({"first_expectation_failure": why, "observed_flags": observed_flags, "known_finding_model": model, "first_difference_at_character": first}));
             }
         }
     }
